@@ -1442,11 +1442,13 @@ def _cjoin(a, b):
 
 
 class CaseFlow:
-    def __init__(self, fn, params):
+    def __init__(self, fn, params, returns=None):
         self.fn = fn
         self.env = dict(params)
         self.lookups = []       # (node, slot, CaseVal of key)
         self.calls = []         # (method name, is_self, [CaseVal per positional arg], {kw: CaseVal})
+        self.returns = returns or {}    # method name -> CaseVal of what self.<name>() returns
+        self.ret = []           # CaseVal of every returned expression
 
     def val(self, e, env):
         if e is None:
@@ -1508,6 +1510,8 @@ class CaseFlow:
         recv_name = f.value.id if isinstance(f, ast.Attribute) and isinstance(f.value, ast.Name) else None
         if isinstance(f, ast.Attribute) and (recv_name == 'self' or not isinstance(f.value, ast.Name) or recv_name not in ('regex', 're', 'RegExpUtility', 'str')):
             self.calls.append((name, recv_name == 'self', args, {k.arg: self.val(k.value, env) for k in e.keywords if k.arg}))
+        if recv_name == 'self' and name in self.returns:
+            return self.returns[name]
         if name == 'lower' and not e.args:
             base = recv or CaseVal('T', False)
             return CaseVal(base.kind if base.kind in ('T', 'C') else 'T', True)
@@ -1612,6 +1616,8 @@ class CaseFlow:
             elif isinstance(st, (ast.Return, ast.Expr)):
                 if st.value is not None:
                     self.scan(st.value, env)
+                    if isinstance(st, ast.Return):
+                        self.ret.append(self.val(st.value, env))
         return env
 
     def run(self):
@@ -1706,14 +1712,23 @@ def rule_lookup_case(chk, idx):
     for m, c, f in funcs:
         names = [a.arg for a in f.args.args if a.arg not in ('self', 'cls')]
         pstate[(c, f.name)] = {n_: 'top' for n_ in names}
+    rstate = {}      # method name -> return state (only names defined once per class family are kept simple: by name)
     for _ in range(4):
         incoming = {k: {n_: [] for n_ in v} for k, v in pstate.items()}
+        new_r = {}
         for m, c, f in funcs:
             params = {k: (None if v == 'top' else v) for k, v in pstate[(c, f.name)].items()}
             if f.name in ENTRY_METHODS:
                 params = {k: None for k in params}
-            cf = CaseFlow(f, {k: v for k, v in params.items() if v is not None})
+            cf = CaseFlow(f, {k: v for k, v in params.items() if v is not None}, rstate)
             cf.run()
+            rets = [r for r in cf.ret]
+            if rets and all(isinstance(r, CaseVal) for r in rets) and len({r.kind for r in rets}) == 1:
+                rv = CaseVal(rets[0].kind, all(r.lower for r in rets))
+                prev = new_r.get(f.name, rv)
+                new_r[f.name] = CaseVal(rv.kind, rv.lower and prev.lower) if prev is not None and prev.kind == rv.kind else None
+            elif rets and any(isinstance(r, CaseVal) for r in rets):
+                new_r[f.name] = None
             for name, is_self, args, kwargs in cf.calls:
                 owner = idx.find_method(c, name)[0] if is_self else None
                 for (m2, c2, f2) in by_name.get(name, []):
@@ -1740,15 +1755,16 @@ def rule_lookup_case(chk, idx):
                     for x in inc[1:]:
                         out = _cjoin(out, x) if out != x else out
                     new[k][pname] = out
-        if new == pstate:
+        new_r = {k: v for k, v in new_r.items() if v is not None}
+        if new == pstate and new_r == rstate:
             break
-        pstate = new
+        pstate, rstate = new, new_r
     n = 0
     skipped = {}
     for m, c, f in funcs:
         params = {k: v for k, v in pstate[(c, f.name)].items() if isinstance(v, CaseVal)}
         counts = {}
-        for node, slot, v in CaseFlow(f, params).run():
+        for node, slot, v in CaseFlow(f, params, rstate).run():
             kc = keycase.get((slot, _lang_of(m.name))) or keycase.get((slot, ''))
             if kc is None:
                 skipped[slot] = skipped.get(slot, 0) + 1
